@@ -274,6 +274,19 @@ def evaluate(case: dict[str, Any]) -> Outcome:
     out.labels.append("family:" + case["kind"])
     if case["kind"] == "pygen":
         out.labels.extend("has:" + f for f in pygen.features_of(case["module"]))
+    elif case["kind"] == "tmpl":
+        out.labels.extend(sorted({"tmpl:" + c["target"] for c in case["calls"]}))
+    else:
+        out.labels.append("stdlib:" + case["func"])
+    arg_classes = set()
+    for call in case["calls"]:
+        for recipe in [*call.get("args", []), *call.get("init", [])]:
+            if "k" in recipe and "t" not in recipe:
+                arg_classes.add("arg:" + V.category(recipe))
+                arg_classes.update("arg:obj/" + f for f in V.features(recipe))
+            else:
+                arg_classes.add("arg:plain-" + str(recipe.get("t")))
+    out.labels.extend(sorted(arg_classes))
     out.excluded = merged["excluded"]
     out.nontrivial = merged["nontrivial"]
     out.evaluations = max(1, merged["evaluations"])
